@@ -147,14 +147,6 @@ def showHof (h : Heap Cell) (hof : List HofEntry) : String :=
 
 def showProbs (p : TransProbs) : String := joinOr "," (p.map fun kv => showRat kv.2)
 
-/-- all scores of a list are pairwise "coherent": isclose is symmetric and transitive on them and compatible with `<` -/
-def coherentOn (t : Tol) (l : List Score) : Bool :=
-  l.all fun a => l.all fun b =>
-    (a.isclose t b == b.isclose t a) &&
-    l.all fun c =>
-      (!(a.isclose t b && b.isclose t c) || a.isclose t c) &&
-      (!(a.isclose t b && b.lt c && !b.isclose t c) || a.lt c)
-
 def cmdSolve (a : Args) : String :=
   let cfg : Cfg := {
     nHof := getNat a "nhof", nStop := getNat a "nstop", nPop := getNat a "npop", tournamentK := getNat a "k",
